@@ -105,6 +105,7 @@ func NewDefaultWorkerPool(jobQueue *fpgo.BufferedChannelQueue[func()], settings 
 
 // trySpawn Try Spawn Goroutine as possible
 func (workerPoolSelf *DefaultWorkerPool) trySpawn() {
+	verifPoint("pool.trySpawn.entry", workerPoolSelf)
 	workerPoolSelf.lock.RLock()
 	batchSize := workerPoolSelf.workerBatchSize
 	var expectedWorkerCount int
@@ -134,6 +135,7 @@ func (workerPoolSelf *DefaultWorkerPool) trySpawn() {
 			workerPoolSelf.generateWorkerWithMaximum(expectedWorkerCount)
 		}
 	}
+	verifPoint("pool.trySpawn.exit", workerPoolSelf)
 }
 
 // PreAllocWorkerSize PreAllocate Workers
@@ -151,12 +153,14 @@ func (workerPoolSelf *DefaultWorkerPool) spawnLoop() {
 	}()
 
 	for range workerPoolSelf.spawnWorkerCh {
+		verifPoint("pool.spawnLoop.wake", workerPoolSelf)
 		if workerPoolSelf.IsClosed() {
 			break
 		}
 
 		workerPoolSelf.trySpawn()
 
+		verifPoint("pool.spawnLoop.beforeSleep", workerPoolSelf)
 		time.Sleep(workerPoolSelf.spawnWorkerDuration)
 	}
 }
@@ -183,6 +187,7 @@ func (workerPoolSelf *DefaultWorkerPool) generateWorkerWithMaximum(maximum int) 
 	go func() {
 		// Recover & Recycle
 		defer func() {
+			verifPoint("pool.worker.exit", workerPoolSelf)
 			if panic := recover(); panic != nil {
 				if handler := workerPoolSelf.panicHandler; handler != nil {
 					handler(panic)
@@ -205,10 +210,12 @@ func (workerPoolSelf *DefaultWorkerPool) generateWorkerWithMaximum(maximum int) 
 			if workerPoolSelf.IsClosed() {
 				return
 			}
+			verifPoint("pool.worker.afterClosedCheck", workerPoolSelf)
 
 			select {
 			case job := <-workerPoolSelf.jobQueue.GetChannel():
 				if job != nil {
+					verifPoint("pool.worker.gotJob", workerPoolSelf)
 					workerPoolSelf.lock.Lock()
 					isBusy = true
 					workerPoolSelf.workerBusy++
@@ -222,6 +229,7 @@ func (workerPoolSelf *DefaultWorkerPool) generateWorkerWithMaximum(maximum int) 
 					workerPoolSelf.lock.Unlock()
 				}
 			case <-time.After(workerPoolSelf.workerExpiryDuration):
+				verifPoint("pool.worker.expiry", workerPoolSelf)
 				workerPoolSelf.lock.RLock()
 				workerCount := workerPoolSelf.workerCount
 				if workerCount > workerPoolSelf.workerSizeStandBy ||
@@ -319,6 +327,7 @@ func (workerPoolSelf *DefaultWorkerPool) Close() {
 		return
 	}
 	workerPoolSelf.isClosed.Set(true)
+	verifPoint("pool.close.flagSet", workerPoolSelf)
 
 	if workerPoolSelf.isJobQueueClosedWhenClose {
 		workerPoolSelf.jobQueue.Close()
@@ -330,6 +339,7 @@ func (workerPoolSelf *DefaultWorkerPool) Schedule(fn func()) error {
 	if workerPoolSelf.IsClosed() {
 		return ErrWorkerPoolIsClosed
 	}
+	verifPoint("pool.schedule.afterClosedCheck", workerPoolSelf)
 	defer workerPoolSelf.spawnWorkerCh.Offer(1)
 
 	err := workerPoolSelf.jobQueue.Offer(fn)
